@@ -1,7 +1,7 @@
 (* C02 — Liveness is exactly the set of register bytes that can still be read. *)
 From Avo Require Import Base.Prelude.
 From stdpp Require Import gmap.
-From Avo Require Import Base.MaskSet Model.IR Model.Liveness Proofs.LivenessProofs Proofs.LivenessTerm Proofs.LiveSpecProofs Model.Sem Proofs.SimProofs Proofs.SimLink Proofs.LiveSem.
+From Avo Require Import Base.MaskSet Model.IR Model.Liveness Proofs.LivenessProofs Proofs.LivenessTerm Proofs.LiveSpecProofs Model.Sem Proofs.SimProofs Proofs.SimLink Proofs.LiveSem Model.Cert Proofs.LiveCert.
 Open Scope N_scope.
 
 (* For every program (any CFG: backward branches, unreachable code, falling off the end), when the
@@ -116,3 +116,23 @@ Theorem bytes_not_reported_live_cannot_influence_the_run :
       /\ (forall l, LIn r j1 l -> R1 l = R1' l).
 Proof. exact dead_bytes_do_not_matter. Qed.
 Print Assumptions bytes_not_reported_live_cannot_influence_the_run.
+
+(* large functions: the live sets the implementation computed, checked closed (Cert.closed_b) and supported
+   by the harness's rank certificate (Cert.supported_b), both evaluated inside Coq on every run, are exactly
+   path liveness — before and after every instruction, for every register byte class.  Nothing about how
+   the sets or the ranks were obtained is assumed. *)
+Theorem certified_live_sets_are_exact : forall (p : prog) (r : st) (rks : list rank_t),
+  closed_b p r = true -> supported_b p r rks = true ->
+  forall j id k, (mem (nth_in r j) id k = true <-> path_live p j id k)
+              /\ (mem (nth_out r j) id k = true <-> live_after p j id k).
+Proof. exact certified_live_sets_are_exact_lemma. Qed.
+Print Assumptions certified_live_sets_are_exact.
+
+(* non-vacuity, and the reason closure alone is not enough: in  0: v := ..; 1: nop; 2: branch to 1 or 3; 3: ret
+   nothing reads v.  The family "v is live around the loop" is closed, yet no ranks support it; the empty
+   family is closed and supported. *)
+Example closed_is_not_exact :
+  closed_b ex_loop_prog ex_loop_family = true /\ (forall rks, supported_b ex_loop_prog ex_loop_family rks = false)
+  /\ closed_b ex_loop_prog ex_empty_family = true /\ supported_b ex_loop_prog ex_empty_family [] = true.
+Proof. exact closed_is_not_exact_lemma. Qed.
+Print Assumptions closed_is_not_exact.
